@@ -76,3 +76,7 @@ add('C13', 'exploration', 'model-based property testing over an in-memory datagr
     'Real UDPCL agents send generated bundles through the paced transmit path on a virtual clock; every datagram is parsed by an independent CBOR reader (size, tiling, content) and then delivered to a real receiver in generated and exhaustively permuted orders with repeats, padding and message concatenation; announcements are compared with a coverage model keyed by peer and transfer id.',
     'mtu >= 64; bundles are real RFC 9171 encodings; virtual clock inside udpcl.agent.',
     'DESIGN.md section 3 C13')
+add('C20', 'exploration', 'property-based testing with an independent BTP-U parser (round-trip/differential) + exhaustive permutations of small segment sets through the real receive path',
+    'Frames produced by the real segmentation code are parsed by an independent BTP-U parser (lengths, MTU bound, numbering, content) and re-encoded by the repository codec; they are then delivered to the real receive routine in generated and exhaustively permuted orders, interleaved with another transfer; reference-encoded frames with hints, padding and several messages are round-tripped through the repository codec.',
+    'Bundles have at least one octet; the virtual clock is not advanced between segments.',
+    'DESIGN.md section 3 C20')
